@@ -142,7 +142,7 @@ func TestVerif_C19(t *testing.T) {
 	defer res.finish(t)
 	res.assume("BESS: the slice meter is programmed in bytes/s (rate/8) per direction (uplink = N6, downlink = N3); UP4: one cell slice_tc_meter[slice,default TC] carrying the larger of the two rates")
 	res.assume("the oracle on programmed values applies only when the posted rate is non-zero and the converted value fits in 63 bits (property statement)")
-	n := vEnv.pick(24000, 300000)
+	n := vEnv.pick(24000, 3000000)
 	var agents [2]*vAgent
 	defer func() {
 		for _, a := range agents {
